@@ -69,3 +69,55 @@ Proof.
   exists k, j. split; [exact Hl | split; [exact Hj | exact Hn]].
 Qed.
 Print Assumptions C07_clover_linearizable.
+
+(* ---- composed with the abstract specification S (Proofs/AbstractSpecProofs.v): the (operation, result) pairs of a concurrent execution, in
+   linearisation order, form a run of S from the abstract state the initial store refines; the final durable store refines the final abstract
+   state; every returned call is linearised with its own result before it returns (Proofs/ConcSpecProofs.v) ---- *)
+From Clover Require Import HistoryProofs CompositeSpec CompositeProofs AbstractSpecProofs ConcSpecProofs.
+Theorem C07_linearizable_wrt_abstract_spec :
+  forall (db0 : dbst) (a0 : sdb) (tr : list (event txop T)) (s : sys dbst txop T),
+  wf_db a0 -> Rdb' a0 db0 ->
+  exec step_tx is_write_tx (init db0) tr s ->
+  replay_dom_tx db0 (lin_of tr) ->
+  exists a,
+    a_run (mkA a0 (closed db0)) (map the_op (lin_ops (lin_of tr))) (lin_results (lin_of tr)) a /\
+    wf_db (a_db a) /\ R (a_db a) (KV.durable (Concurrency.durable s)) /\ a_closed a = closed db0 /\
+    (forall i c o r, returned_at tr i c o r ->
+       exists k j, lin_point_of tr c o r k j /\ (j < i)%nat /\
+                   nth_error (lin_of tr) (lin_index tr j) = Some (c, o, r)).
+Proof. exact concurrent_linearizable_wrt_spec. Qed.
+Print Assumptions C07_linearizable_wrt_abstract_spec.
+
+Theorem C07_linearizable_wrt_abstract_spec_from_empty :
+  forall (tr : list (event txop T)) (s : sys dbst txop T),
+  exec step_tx is_write_tx (init empty_db) tr s ->
+  replay_dom_tx empty_db (lin_of tr) ->
+  exists a,
+    a_run a_init (map the_op (lin_ops (lin_of tr))) (lin_results (lin_of tr)) a /\
+    wf_db (a_db a) /\ R (a_db a) (KV.durable (Concurrency.durable s)) /\ a_closed a = false /\
+    (forall i c o r, returned_at tr i c o r ->
+       exists k j, lin_point_of tr c o r k j /\ (j < i)%nat /\
+                   nth_error (lin_of tr) (lin_index tr j) = Some (c, o, r)).
+Proof. exact concurrent_linearizable_wrt_spec_empty. Qed.
+Print Assumptions C07_linearizable_wrt_abstract_spec_from_empty.
+
+Theorem C07_returned_call_allowed_by_spec :
+  forall (db0 : dbst) (a0 : sdb) (tr : list (event txop T)) (s : sys dbst txop T),
+  wf_db a0 -> Rdb' a0 db0 ->
+  exec step_tx is_write_tx (init db0) tr s ->
+  replay_dom_tx db0 (lin_of tr) ->
+  forall i c o r, returned_at tr i c o r ->
+    exists k j am am',
+      lin_point_of tr c o r k j /\ (j < i)%nat /\
+      a_run (mkA a0 (closed db0))
+            (firstn (lin_index tr j) (map the_op (lin_ops (lin_of tr))))
+            (firstn (lin_index tr j) (lin_results (lin_of tr))) am /\
+      a_step (the_op o) am r am'.
+Proof. exact returned_call_allowed_by_spec. Qed.
+Print Assumptions C07_returned_call_allowed_by_spec.
+
+Theorem C07_example_execution : exists s, exec step_tx is_write_tx (init empty_db) cx_trace s.
+Proof. exact cx_is_execution. Qed.
+Print Assumptions C07_example_execution.
+
+(* the instantiated example (two clients, an Insert overlapping a FindAll) is cx_linearizable_wrt_spec in Proofs/ConcSpecProofs.v *)
